@@ -68,6 +68,26 @@ pub trait Life {
     fn touch(&self) -> u64 {
         0
     }
+    fn as_any(&self) -> &dyn std::any::Any;
+    /// `Clone::clone_from(self, src)`; false if `src` is not the same structure type
+    fn clone_from_dyn(&mut self, src: &dyn Life) -> bool;
+}
+
+macro_rules! clone_from_impl {
+    ($t:ty) => {
+        fn as_any(&self) -> &dyn std::any::Any {
+            self
+        }
+        fn clone_from_dyn(&mut self, src: &dyn Life) -> bool {
+            match src.as_any().downcast_ref::<$t>() {
+                Some(s) => {
+                    self.0.clone_from(&s.0);
+                    true
+                }
+                None => false,
+            }
+        }
+    };
 }
 
 pub fn digest_value(a: u64) -> f64 {
@@ -79,6 +99,15 @@ pub fn digest_weight(b: u64) -> f64 {
 
 struct FilterLife(AnyFilter);
 impl Life for FilterLife {
+    fn as_any(&self) -> &dyn std::any::Any {
+        self
+    }
+    fn clone_from_dyn(&mut self, src: &dyn Life) -> bool {
+        match src.as_any().downcast_ref::<FilterLife>() {
+            Some(s) => self.0.clone_from_other(&s.0),
+            None => false,
+        }
+    }
     fn apply(&mut self, a: u64, _b: u64) -> (u64, bool) {
         match self.0.insert(a) {
             Ok(x) => (x as u64, true),
@@ -107,6 +136,15 @@ impl Life for FilterLife {
 
 struct CmsLife(AnyCms);
 impl Life for CmsLife {
+    fn as_any(&self) -> &dyn std::any::Any {
+        self
+    }
+    fn clone_from_dyn(&mut self, src: &dyn Life) -> bool {
+        match src.as_any().downcast_ref::<CmsLife>() {
+            Some(s) => self.0.clone_from_other(&s.0),
+            None => false,
+        }
+    }
     fn apply(&mut self, a: u64, b: u64) -> (u64, bool) {
         let n = 1 + b % 3;
         (if n == 1 { self.0.add(a) } else { self.0.add_n(a, n) }, true)
@@ -129,6 +167,7 @@ impl Life for CmsLife {
 
 struct HllLife(Hll);
 impl Life for HllLife {
+    clone_from_impl!(HllLife);
     fn apply(&mut self, a: u64, b: u64) -> (u64, bool) {
         if b % 2 == 0 {
             self.0.add(&a)
@@ -159,6 +198,15 @@ impl Life for HllLife {
 
 struct DigLife(Box<dyn DigDyn>);
 impl Life for DigLife {
+    fn as_any(&self) -> &dyn std::any::Any {
+        self
+    }
+    fn clone_from_dyn(&mut self, src: &dyn Life) -> bool {
+        match src.as_any().downcast_ref::<DigLife>() {
+            Some(s) => self.0.clone_from_dyn(s.0.as_ref()),
+            None => false,
+        }
+    }
     fn apply(&mut self, a: u64, b: u64) -> (u64, bool) {
         let w = digest_weight(b);
         self.0.insert_weighted(digest_value(a), w);
@@ -197,6 +245,22 @@ impl Life for DigLife {
 
 struct ResLife(ReservoirSampling<u64, SimRng>, RngProbe);
 impl Life for ResLife {
+    fn as_any(&self) -> &dyn std::any::Any {
+        self
+    }
+    fn clone_from_dyn(&mut self, src: &dyn Life) -> bool {
+        match src.as_any().downcast_ref::<ResLife>() {
+            Some(s) => {
+                let _ = crate::rng::take_last_clone_probe();
+                self.0.clone_from(&s.0);
+                if let Some(p) = crate::rng::take_last_clone_probe() {
+                    self.1 = p;
+                }
+                true
+            }
+            None => false,
+        }
+    }
     fn apply(&mut self, a: u64, _b: u64) -> (u64, bool) {
         self.0.add(a);
         (0, true)
@@ -227,6 +291,7 @@ impl Life for ResLife {
 
 struct LossyLife(LossyCounter<u64>, u64);
 impl Life for LossyLife {
+    clone_from_impl!(LossyLife);
     fn apply(&mut self, a: u64, _b: u64) -> (u64, bool) {
         (self.0.add(a % self.1) as u64, true)
     }
@@ -253,6 +318,7 @@ impl Life for LossyLife {
 
 struct HeapLife(CMSHeap<u64>, u64);
 impl Life for HeapLife {
+    clone_from_impl!(HeapLife);
     fn apply(&mut self, a: u64, _b: u64) -> (u64, bool) {
         self.0.add(a % self.1);
         (0, true)
